@@ -47,13 +47,15 @@ InScope(kind, source, f) ==
            [] OTHER -> TRUE
 
 \* ---- reference semantics of one lint execution
-\* cfg \in {"none","ok","err"};  body = [k |-> "ret", st |-> s] | [k |-> "panic"] | [k |-> "nil"]
+\* cfg \in {"none","ok","err","panic"} ("panic": applying the configuration panics, e.g. the zero-value Configuration{});
+\* body = [k |-> "ret", st |-> s] | [k |-> "panic"] | [k |-> "nil"]
 BodyDue(kind, m, f, cfg, applies, t) ==
-    InScope(kind, m.source, f) /\ cfg # "err" /\ applies /\ InWindow(m.eff, m.ineff, t)
-AppliesDue(kind, m, f, cfg) == InScope(kind, m.source, f) /\ cfg # "err"
+    InScope(kind, m.source, f) /\ cfg \notin {"err", "panic"} /\ applies /\ InWindow(m.eff, m.ineff, t)
+AppliesDue(kind, m, f, cfg) == InScope(kind, m.source, f) /\ cfg \notin {"err", "panic"}
 Outcome(kind, m, f, cfg, applies, t, body) ==
    IF ~InScope(kind, m.source, f) THEN [st |-> NA, why |-> "scope"]
    ELSE IF cfg = "err" THEN [st |-> Fatal, why |-> "config"]
+   ELSE IF cfg = "panic" THEN (IF kind = "cert" THEN [st |-> Fatal, why |-> "panicked"] ELSE [st |-> -1, why |-> "escape"])
    ELSE IF ~applies THEN [st |-> NA, why |-> "applies"]
    ELSE IF ~InWindow(m.eff, m.ineff, t) THEN [st |-> NE, why |-> "window"]
    ELSE IF body.k = "panic" THEN (IF kind = "cert" THEN [st |-> Fatal, why |-> "panicked"] ELSE [st |-> -1, why |-> "escape"])
@@ -63,7 +65,7 @@ Outcome(kind, m, f, cfg, applies, t, body) ==
 Calls(kind, m, cfgable, f, cfg, applies, t) ==
    IF ~InScope(kind, m.source, f) THEN <<>>
    ELSE <<"construct">> \o (IF cfgable THEN <<"configure">> ELSE <<>>)
-        \o (IF cfg = "err" THEN <<>>
+        \o (IF cfg \in {"err", "panic"} THEN <<>>
             ELSE <<"applies">> \o (IF applies /\ InWindow(m.eff, m.ineff, t) THEN <<"execute">> ELSE <<>>))
 
 \* the same, with a panicking applicability test (appl \in {1, 0, -1}); a panic anywhere inside the
